@@ -38,6 +38,17 @@ def tvRun (S : TVSpec Desc Desc Desc Desc) : List Json → TV Desc Desc → List
     let u := match used with | .inl w => w | .inr w => w
     tvRun S os s' (jObj [("used", jDesc u), ("rebuilt", jB rebuilt), ("G", jOptDesc s'.G), ("P", jOptDesc s'.P)] :: acc)
 
+
+def ctxRun (concrete : Bool) : List Json → Option (Built Desc) → List Json → Option (List Json)
+  | [], _, acc => some acc.reverse
+  | o :: os, slot, acc => do
+    let i ← getDesc? o
+    let t ← fInt? o "c"
+    let c : ExecCtx := if t < 0 then .eager else .trace t.toNat
+    let (slot', r) := queryCtx concrete (fun w : Desc => w) (fun i : Desc => i) (fun i => i) slot c i
+    let res := match r with | .ok _ => "ok" | .error _ => "leak"
+    ctxRun concrete os slot' (jS res :: acc)
+
 def lossOp? (o : Json) : Option (LossOp Float) := do
   let kind ← fStr? o "k"
   match kind with
@@ -59,6 +70,10 @@ def handler : Handler := fun op j =>
     let pre : Option Desc := (field? j "pre").bind getDesc?
     let ops ← fList? j "ops"
     (tvRun S ops (TV.init S pre) []).map (fun rs => ok (jArr rs))
+  | "ctx" => do
+    let concrete ← fBool? j "concrete"
+    let ops ← fList? j "ops"
+    (ctxRun concrete ops none []).map (fun rs => ok (jArr rs))
   | "loss" => do
     let ops ← (fList? j "ops").bind (fun l => l.mapM lossOp?)
     let h := Heap.run ([] : Heap Float) ops
